@@ -314,6 +314,16 @@ def batch(make_proc, reqs, workers=None, timeout=10.0):
             p.close()
     with ThreadPoolExecutor(workers) as ex:
         list(ex.map(work, chunks))
+    # a timeout, a garbled line or a child killed by a signal may be collateral of machine load or of the previous
+    # request on that child: such requests are repeated once, alone, on a fresh child with a longer limit
+    redo = [i for i, o in enumerate(out) if o is None or "timeout" in o or "garbled" in o or ("exit" in o and o["exit"] not in (0, 1))]
+    if redo:
+        p = make_proc()
+        try:
+            for i in redo:
+                out[i] = p.call(reqs[i], timeout=timeout * 4)
+        finally:
+            p.close()
     return out
 
 
